@@ -955,6 +955,14 @@ class Interp:
             xs = a.items if va else [a] * n_
             ys = b.items if vb else [b] * n_
             return Vec([self.compare(op, x, y, node) for x, y in zip(xs, ys)])
+        if (type(a).__name__ == "Col" or type(b).__name__ == "Col") and isinstance(op, (ast.Lt, ast.LtE, ast.Gt, ast.GtE)):
+            # elementwise ordering of a column against a scalar / column: a column of booleans
+            ca, cb = type(a).__name__ == "Col", type(b).__name__ == "Col"
+            n_ = len(a.values) if ca else len(b.values)
+            xs = a.values if ca else [a] * n_
+            ys = b.values if cb else [b] * n_
+            proto = a if ca else b
+            return type(proto)([self.truth(self.compare(op, x, y, node), node) for x, y in zip(xs, ys)], proto.name, "bool")
         if isinstance(op, (ast.Is, ast.IsNot)):
             if a is None or b is None:
                 r = (a is None and b is None)
